@@ -23,6 +23,14 @@
 // per-street odds has a u8 code (no `expect("invalid odds value")`). Float: the product of
 // `actionize` equals floor(pot*num/den) for every pot 0..=2*STACK x every grid odds.
 //
+// Batches (the translation must be a function of the state and the edge alone): the decisions
+// collected above are grouped by equal pot (and by pot + street), and for each group ALL menus are
+// computed first and ALL entries translated afterwards — in collection order, in reverse order,
+// interleaved across two hands with equal pots, over the whole pool at once, and from several
+// threads (each thread: its groups, menus first). Every (state, edge) answer is judged on its own
+// against the action the rules determine (`expected_action`), the engine's is_allowed and the
+// rules' permitted set, and is sent to the model as an ordinary `menu` line.
+//
 // States: random walks of the real engine (5 styles, every raise size) + every state reachable
 // under the abstraction (breadth-first from the root, following actionize of every menu entry with
 // the raise count of the current round; forced deals) ; thorough adds the breadth-first search over
@@ -197,10 +205,22 @@ fn div_floor(a: i64, b: i64) -> i64 {
     a.div_euclid(b)
 }
 
+/// a decision kept for the batch phase
+#[derive(Clone)]
+struct Item {
+    h0: u64,
+    h1: u64,
+    hist: Vec<Action>,
+    g: Game,
+    rules: Rules,
+    p: usize,
+}
 struct Ctx {
     run: Run,
     seen: HashSet<(i16, [(u8, i16, i16, i16); 2], usize, u8)>,
     lines_menu: u64,
+    pool: Vec<Item>,
+    pool_cap: usize,
 }
 
 /// the model-facing line of one state: all raise counts 0..=5
@@ -399,10 +419,200 @@ fn visit(cx: &mut Ctx, deal: &Deal, hist: &[Action], g: &Game, rules: &Rules, li
     }
     let name = format!("menu {} {} | {}", deal.h0, deal.h1, hist_tok(hist));
     check_state(cx, &name, g, rules);
+    if let Turn::Choice(p) = g.turn() {
+        if cx.pool.len() < cx.pool_cap {
+            cx.pool.push(Item { h0: deal.h0, h1: deal.h1, hist: hist.to_vec(), g: *g, rules: rules.clone(), p });
+        }
+    }
     cx.lines_menu += 1;
     if cx.lines_menu % line_every == 0 || hist.len() <= 3 {
         cx.run.line(&format!("{name} | 0 1 2 3 4 5"), &menu_line(g));
     }
+}
+
+/// the concrete action the rules determine for an abstract edge at a decision of seat `p`:
+/// fold / check as they are, call = the outstanding amount, all-in = the stack, a raise edge = the
+/// pot fraction truncated to chips and clamped: >= stack => all-in, <= minimum raise => minimum raise
+fn expected_action(rules: &Rules, p: usize, e: &Edge) -> Option<Action> {
+    let stack = rules.stack[p] as i64;
+    let minr = rules.min_raise(p) as i64;
+    let pot = rules.pot() as i64;
+    match e {
+        Edge::Fold => Some(Action::Fold),
+        Edge::Check => Some(Action::Check),
+        Edge::Call => Some(Action::Call(rules.outstanding(p) as i16)),
+        Edge::Shove => Some(Action::Shove(stack as i16)),
+        Edge::Draw => None,
+        Edge::Raise(o) => {
+            let (num, den) = (o.0 as i64, o.1 as i64);
+            let c = div_floor(pot * num, den);
+            Some(if pot * num >= stack * den || c >= stack {
+                Action::Shove(stack as i16)
+            } else if c <= minr {
+                Action::Raise(minr as i16)
+            } else {
+                Action::Raise(c as i16)
+            })
+        }
+    }
+}
+
+/// one batch: the menus of all its states first, then the translation of every entry, in `order`
+/// (indices into `items`; `interleave`: round-robin over the states' entries instead of state by state)
+fn run_batch(items: &[&Item], n: usize, reverse: bool, interleave: bool) -> Vec<(Vec<Edge>, Vec<Option<Action>>)> {
+    // phase 1: every menu
+    let menus: Vec<Vec<Edge>> = items.iter().map(|it| {
+        let g = it.g;
+        catch(move || g.choices(n)).unwrap_or_default()
+    }).collect();
+    // phase 2: every translation
+    let mut out: Vec<Vec<Option<Action>>> = menus.iter().map(|m| vec![None; m.len()]).collect();
+    let mut order: Vec<(usize, usize)> = vec![];
+    if interleave {
+        let longest = menus.iter().map(|m| m.len()).max().unwrap_or(0);
+        for j in 0..longest {
+            for i in 0..items.len() {
+                if j < menus[i].len() {
+                    order.push((i, j));
+                }
+            }
+        }
+    } else {
+        for i in 0..items.len() {
+            for j in 0..menus[i].len() {
+                order.push((i, j));
+            }
+        }
+    }
+    if reverse {
+        order.reverse();
+    }
+    for (i, j) in order {
+        let (g, e) = (items[i].g, menus[i][j]);
+        out[i][j] = catch(move || g.actionize(&e));
+    }
+    menus.into_iter().zip(out).collect()
+}
+
+/// judge the answers of one batch, state by state and edge by edge, and send them to the model
+fn judge_batch(cx: &mut Ctx, mode: &str, items: &[&Item], n: usize, res: &[(Vec<Edge>, Vec<Option<Action>>)], emit_lines: bool) {
+    for (it, (menu, acts)) in items.iter().zip(res.iter()) {
+        let name = format!("menu {} {} | {} | {n}", it.h0, it.h1, hist_tok(&it.hist));
+        let mut toks = vec![pack(menu).map(|w| w.to_string()).unwrap_or("panic".into())];
+        for (e, a) in menu.iter().zip(acts.iter()) {
+            cx.run.evaluations += 1;
+            cx.run.spec_checked += 1;
+            toks.push(format!("{}:{}", code(e), a.map(|a| legal_tok(&a)).unwrap_or("panic".into())));
+            let at = format!("{name} | {e:?} [{mode}: menus of {} states with equal pot {} computed first, translations afterwards]", items.len(), it.g.pot());
+            let want = expected_action(&it.rules, it.p, e);
+            match a {
+                None => cx.run.fail("batch-actionize-panics", &at, &want.map(|w| act_tok(&w)).unwrap_or_default(), "panic"),
+                Some(a) => {
+                    if want.is_some() && Some(*a) != want {
+                        cx.run.fail("translation-depends-on-other-states", &at, &act_tok(&want.unwrap()), &act_tok(a));
+                    }
+                    if !it.rules.permitted(it.p, a) {
+                        cx.run.fail("batch-entry-rejected-by-rules", &at, &format!("permitted (outstanding {} stack {} min raise {})", it.rules.outstanding(it.p), it.rules.stack[it.p], it.rules.min_raise(it.p)), &act_tok(a));
+                    }
+                    if !it.g.is_allowed(a) {
+                        cx.run.fail("batch-entry-rejected-by-engine", &at, "is_allowed", &act_tok(a));
+                    }
+                }
+            }
+        }
+        cx.run.count(&format!("batch:{mode}:states"));
+        if emit_lines {
+            let g = &it.g;
+            cx.run.line(&name, &format!("{} {} {} {} | {}", turn_tok(g.turn()), g.pot(), g.to_raise(), g.to_shove(), toks.join(" ")));
+        }
+    }
+}
+
+/// batch / interleaved use of choices() and actionize(): see the file header
+fn batch_phase(cx: &mut Ctx, rng: &mut Rng, thorough: bool) {
+    let pool = std::mem::take(&mut cx.pool);
+    // groups of equal pot, and of equal (pot, street); inside a group different bounds are what matters
+    let mut by_pot: HashMap<i16, Vec<usize>> = HashMap::new();
+    let mut by_pot_street: HashMap<(i16, u8), Vec<usize>> = HashMap::new();
+    for (i, it) in pool.iter().enumerate() {
+        by_pot.entry(it.g.pot()).or_default().push(i);
+        by_pot_street.entry((it.g.pot(), it.g.street() as isize as u8)).or_default().push(i);
+    }
+    let mut groups: Vec<Vec<usize>> = by_pot.into_values().chain(by_pot_street.into_values()).filter(|g| g.len() >= 2).collect();
+    groups.sort();
+    let cap = if thorough { 400 } else { 60 };
+    let mut colliding = 0u64;
+    let mut line_budget: i64 = if thorough { 120_000 } else { 30_000 };
+    for grp in &groups {
+        // keep the group small but varied in bounds: a random sample
+        let mut idx = grp.clone();
+        while idx.len() > cap {
+            let k = rng.below(idx.len() as u64) as usize;
+            idx.swap_remove(k);
+        }
+        let items: Vec<&Item> = idx.iter().map(|&i| &pool[i]).collect();
+        let bounds: HashSet<(i16, i16)> = items.iter().map(|it| (it.g.to_raise(), it.g.to_shove())).collect();
+        if bounds.len() >= 2 {
+            colliding += 1;
+        }
+        for n in [0usize, 1] {
+            for (mode, reverse, interleave) in [("forward", false, false), ("reverse", true, false), ("interleaved", false, true), ("interleaved-reverse", true, true)] {
+                let res = run_batch(&items, n, reverse, interleave);
+                let emit = line_budget > 0 && n == 0;
+                if emit {
+                    line_budget -= items.len() as i64;
+                }
+                judge_batch(cx, mode, &items, n, &res, emit);
+            }
+        }
+        // two hands in play at once: pairs of states with equal pot, entries translated alternately
+        for _ in 0..items.len().min(if thorough { 40 } else { 8 }) {
+            let a = items[rng.below(items.len() as u64) as usize];
+            let b = items[rng.below(items.len() as u64) as usize];
+            let pair = [a, b];
+            let res = run_batch(&pair, 0, false, true);
+            judge_batch(cx, "two-hands", &pair, 0, &res, false);
+        }
+    }
+    // the whole pool at once (menus of every state, then every translation), forward and reverse
+    let all: Vec<&Item> = pool.iter().take(if thorough { 60_000 } else { 12_000 }).collect();
+    for (mode, reverse) in [("pool-forward", false), ("pool-reverse", true)] {
+        let res = run_batch(&all, 0, reverse, false);
+        judge_batch(cx, mode, &all, 0, &res, false);
+    }
+    // several threads, each with its own groups: menus first, translations afterwards
+    let n_threads = 4;
+    let results: Vec<Vec<(Vec<usize>, Vec<(Vec<Edge>, Vec<Option<Action>>)>)>> = std::thread::scope(|sc| {
+        let handles: Vec<_> = (0..n_threads).map(|t| {
+            let (groups, pool) = (&groups, &pool);
+            sc.spawn(move || {
+                let mut out = vec![];
+                for (k, grp) in groups.iter().enumerate() {
+                    if k % n_threads != t {
+                        continue;
+                    }
+                    let idx: Vec<usize> = grp.iter().copied().take(cap).collect();
+                    let items: Vec<&Item> = idx.iter().map(|&i| &pool[i]).collect();
+                    let res = run_batch(&items, 0, k % 2 == 1, k % 3 == 0);
+                    out.push((idx, res));
+                }
+                out
+            })
+        }).collect();
+        handles.into_iter().map(|h| h.join().unwrap_or_default()).collect()
+    });
+    for per_thread in &results {
+        for (idx, res) in per_thread {
+            let items: Vec<&Item> = idx.iter().map(|&i| &pool[i]).collect();
+            judge_batch(cx, "threads", &items, 0, res, false);
+        }
+    }
+    cx.run.count_n("batch:groups(equal pot | equal pot+street)", groups.len() as u64);
+    cx.run.count_n("batch:groups-with-different-bounds", colliding);
+    cx.run.count_n("batch:pool-decisions", pool.len() as u64);
+    cx.run.notes.push(format!(
+        "batch phase: {} decisions pooled, {} groups of equal pot / equal pot+street ({} of them contain states with different (min raise, all-in)); per group: all menus first, then all translations forward / reverse / interleaved / interleaved-reverse for n = 0, 1; random pairs as two hands in play; the whole pool at once; {} threads over disjoint groups",
+        pool.len(), groups.len(), colliding, n_threads));
 }
 
 /// every state reachable under the abstraction: from the root, follow actionize of every entry of
@@ -557,11 +767,11 @@ fn main() {
     let a = args();
     let mut rng = Rng::new(a.seed);
     quiet_panics();
-    let mut cx = Ctx { run: Run::new(&a.out), seen: HashSet::new(), lines_menu: 0 };
+    let mut cx = Ctx { run: Run::new(&a.out), seen: HashSet::new(), lines_menu: 0, pool: vec![], pool_cap: if a.thorough() { 150_000 } else { 40_000 } };
     let deals = make_deals(&mut rng, 12);
     let n_hist: usize = if a.thorough() { 100_000 } else { 20_000 };
     cx.run.rule = format!(
-        "every state reachable under the abstraction (breadth-first, counted in the notes) + {n_hist} random histories of the real Game (5 styles x legal() ∪ every raise size, {} forced deals){}; each distinct betting state once, x raise counts 0..=5 x every menu entry, against the history-based NLHE rules (see file header); all {} pots x {} grid odds for the f32 product; all 15 single edges; random edge sequences of length 0..=16 (round trip, injectivity) and 17..=20 (rejected). a case = one (betting state, raise count); non-trivial always",
+        "every state reachable under the abstraction (breadth-first, counted in the notes) + {n_hist} random histories of the real Game (5 styles x legal() ∪ every raise size, {} forced deals){}; each distinct betting state once, x raise counts 0..=5 x every menu entry, against the history-based NLHE rules (see file header); then batches (groups of decisions with equal pot: all menus first, all translations afterwards, forward / reverse / interleaved / two hands / whole pool / 4 threads), each (state, edge) judged on its own; all {} pots x {} grid odds for the f32 product; all 15 single edges; random edge sequences of length 0..=16 (round trip, injectivity) and 17..=20 (rejected). a case = one (betting state, raise count); non-trivial always",
         deals.len(), if a.thorough() { " + breadth-first search over all reachable betting states" } else { "" }, 2 * STACK + 1, Odds::GRID.len()
     );
 
@@ -616,6 +826,9 @@ fn main() {
             visit(&mut cx, deal, &hist[..i], &states[i], &rules[i], if a.thorough() { 4 } else { 1 });
         }
     }
+
+    // ---- batches: all menus first, translations afterwards (order must not matter)
+    batch_phase(&mut cx, &mut rng, a.thorough());
 
     // ---- the f32 product of actionize: every pot x every grid odds (exhaustive)
     for o in Odds::GRID.iter() {
